@@ -239,6 +239,9 @@ def accumulator_form(ctx, F, st, bodies, fields):
 
 
 def r3(ctx, F, rule, sfx):
+    integrals_start_from_zero(ctx, F, rule, sfx, 'voronoi::integrals::FaceIntegral')
+    accessor_consistency(ctx, F, rule, sfx, 'voronoi_face::VoronoiFace', ['area', 'centroid', 'normal', 'shift'])
+    accessor_consistency(ctx, F, rule, sfx, 'integrals::FaceIntegrator', ['left', 'right', 'shift', 'integral'])
     n = 0
     forms = {}
     for st, bodies, fields in face_integral_impls(F):
